@@ -518,6 +518,9 @@ class Command:
                 )
                 if condition:
                     self.curarg = curarg
+                if "tag" not in curarg["type"]:
+                    # positional optional argument: do not fill it twice
+                    self.nextargpos = pos + 1
                 if add:
                     self.arguments[curarg["name"]] = avalue
                 break
